@@ -219,6 +219,16 @@ theorem sat_of_allZeroOn (c : Con) (vars : List Nat) (x y : Val)
 
 /-! ### `all_zeroes` as executed implies independence -/
 
+theorem mem_takeWhile_sat (p : Int → Bool) : ∀ (l : List Int) (a : Int), a ∈ l.takeWhile p → p a = true
+  | [], _, h => by simp at h
+  | x :: xs, a, h => by
+    simp only [List.takeWhile_cons] at h
+    split at h
+    · rcases List.mem_cons.mp h with rfl | h'
+      · assumption
+      · exact mem_takeWhile_sat p xs a h'
+    · simp at h
+
 theorem at_eq_zero_of_dim_le (c : Con) (i : Nat) (h : conDim c ≤ i) : c.at i = 0 := by
   unfold conDim at h
   unfold Con.at
@@ -233,7 +243,7 @@ theorem at_eq_zero_of_dim_le (c : Con) (i : Nat) (h : conDim c ≤ i) : c.at i =
   | some a =>
     have hm : a ∈ (c.coeffs.reverse.takeWhile (· == 0)).reverse := List.mem_of_getElem? hget
     rw [List.mem_reverse] at hm
-    have := List.mem_takeWhile_imp hm
+    have := mem_takeWhile_sat _ _ _ hm
     simpa using this
 
 theorem dim_le_guardSpaceDim (cs : List Con) (c : Con) (hc : c ∈ cs) : conDim c ≤ guardSpaceDim cs := by
